@@ -7,3 +7,28 @@ Open Scope string_scope. Open Scope list_scope.
 
 Definition hyp_gen_ok (c : tg_case) : bool :=
   match tg_gen c with OOk _ => true | _ => false end.
+
+Definition corr_case (c : tg_case) : bool :=
+  corr_ops c && corr_gen c && corr_paths c && corr_upcasts c.
+
+Definition corr_pair (p : tg_pair) : bool := corr_case (tp_a p) && corr_case (tp_b p).
+
+Definition hyp_both_ok (p : tg_pair) : bool := hyp_gen_ok (tp_a p) && hyp_gen_ok (tp_b p).
+
+(* placeholders, replaced below as the checkers land *)
+Definition prop_same_tokens (p : tg_pair) : bool := true.
+Definition prop_sorted_derives (p : tg_pair) : bool := true.
+Definition prop_frame (p : tg_pair) : bool := true.
+Definition prop_switches (p : tg_pair) : bool := true.
+Definition prop_faithful (c : tg_case) : bool := true.
+Definition hyp_coincidence_free (c : tg_case) : bool := true.
+Definition prop_syn_parses (c : tg_case) : bool := true.
+Definition prop_closed (c : tg_case) : bool := true.
+Definition prop_subst (c : tg_case) : bool := true.
+Definition hyp_has_subst (c : tg_case) : bool := true.
+Definition prop_derives_exact (c : tg_case) : bool := true.
+Definition hyp_has_recursive (c : tg_case) : bool := true.
+Definition prop_fault_expect (c : tg_case) : bool := true.
+Definition prop_wf_total (c : tg_case) : bool := true.
+Definition hyp_wf (c : tg_case) : bool := true.
+Definition prop_standalone (c : tg_case) : bool := true.
